@@ -1,7 +1,8 @@
 """Frozen, audited allowlist for the C04 panic-site inventory.
 
 Key: `<function def path>|<kind>:<expression text>` (no line numbers).  Each entry states the invariant that makes the site
-unreachable-with-a-bad-operand and which rule decides that invariant.  An entry that matches no site any more fails closed.
+unreachable-with-a-bad-operand and which rule decides that invariant.  Expressions are those of the normalised tree (lib/norm.py: integer
+temporaries substituted, widening written as a cast at the use).  An entry that matches no site any more is reported as stale.
 """
 ALLOW = {
     'anstyle_parse::params::Params::push|Overflow(Add):($self.current_subparams_Add_1)':
@@ -38,7 +39,7 @@ ALLOW = {
         'i enumerates slices.iter_mut().take(osc_num_params) over an array of 16, so i < 16 = osc_params.len() (C02|osc init-loop-bound)',
     'anstyle_parse::Parser::<C>::osc_dispatch|call:index:$self.osc_raw[Range{start:_$indices.0,_end:_$indices.1}]':
         'recorded (begin, end) pairs are osc_raw.len() values taken in increasing order with begin = previous end, and osc_raw only grows between OscStart clears, so begin <= end <= osc_raw.len() (C02|guards osc stores)',
-    'anstyle_parse::Parser::<C>::osc_dispatch|call:index:$slices[RangeTo{end:_$num_params}]':
+    'anstyle_parse::Parser::<C>::osc_dispatch|call:index:$slices[RangeTo{end:_$self.osc_num_params}]':
         'num_params = osc_num_params <= MAX_OSC_PARAMS = 16 = slices.len(): incremented only when != MAX_OSC_PARAMS (C02|guards)',
     'anstyle_parse::Parser::<C>::perform_action|BoundsCheck:$self.osc_params[($param_idx_Sub_1)]':
         'param_idx = osc_num_params in 0..=16; these sites are in match arms after `MAX_OSC_PARAMS => ..` (and `0 => ..` for the `- 1`), so param_idx is in 1..=15 resp. 0..=15 < 16 and the increment stays <= 16 (C02|guards osc_params-store / osc_num_params-inc)',
@@ -106,13 +107,13 @@ ALLOW = {
         'index comes from Effects::index_iter(), whose next() yields only index < METADATA.len() (C13|iterators bound-is-METADATA.len())',
     '<anstyle::effect::EffectsDisplay_as_core::fmt::Display>::fmt|BoundsCheck:anstyle::effect::METADATA[$index]':
         'index comes from Effects::index_iter(), whose next() yields only index < METADATA.len() (C13|iterators bound-is-METADATA.len())',
-    'anstyle_git::parse_color|call:index:$hex[Range{start:_0,_end:_$l}]':
+    'anstyle_git::parse_color|call:index:$hex[Range{start:_0,_end:_($l_Div_3)}]':
         'hex consists of ASCII hex digits only (C04|str-slice / C11|hex-guard) so byte offsets are char boundaries, hex.len() is 3 or 6 and l = len/3, so 3*l = len',
-    'anstyle_git::parse_color|call:index:$hex[Range{start:_$l,_end:_(2_Mul_$l)}]':
+    'anstyle_git::parse_color|call:index:$hex[Range{start:_($l_Div_3),_end:_(2_Mul_($l_Div_3))}]':
         'hex consists of ASCII hex digits only (C04|str-slice / C11|hex-guard) so byte offsets are char boundaries, hex.len() is 3 or 6 and l = len/3, so 3*l = len',
-    'anstyle_git::parse_color|call:index:$hex[Range{start:_(2_Mul_$l),_end:_(3_Mul_$l)}]':
+    'anstyle_git::parse_color|call:index:$hex[Range{start:_(2_Mul_($l_Div_3)),_end:_(3_Mul_($l_Div_3))}]':
         'hex consists of ASCII hex digits only (C04|str-slice / C11|hex-guard) so byte offsets are char boundaries, hex.len() is 3 or 6 and l = len/3, so 3*l = len',
-    'anstyle_lossy::palette::Palette::get_ansi256_ref|BoundsCheck:$self.0[$index]':
+    'anstyle_lossy::palette::Palette::get_ansi256_ref|BoundsCheck:$self.0[($index_as_usize)]':
         'private fn called only with Ansi256Color::from_ansi(color) (C04|allowlist links), whose index is 0..=15 (C13|colour-tables) < 16',
     "anstyle_lossy::palette::Palette::find_match|BoundsCheck:['best_index_is_out_of_bounds'][$best_index]":
         'deliberate panic in the branch where into_ansi(best_index) is None; unreachable because best_index < 16 by the scan bound (C10|scan returns-into_ansi(best_index))',
@@ -130,7 +131,7 @@ ALLOW = {
         "arithmetic on configuration values (padding_px, min_width_px) and on the number of lines / display width of text held in memory, times small constants: outside the property's untrusted-input domain (a caller passing usize::MAX as padding is a configuration error)",
     'anstyle_svg::Term::render_svg|Overflow(Add):$text_y_AddAssign=_$line_height':
         "arithmetic on configuration values (padding_px, min_width_px) and on the number of lines / display width of text held in memory, times small constants: outside the property's untrusted-input domain (a caller passing usize::MAX as padding is a configuration error)",
-    'anstyle_svg::color_name|BoundsCheck:anstyle_svg::ANSI_NAMES[$index]':
+    'anstyle_svg::color_name|BoundsCheck:anstyle_svg::ANSI_NAMES[($index_as_usize)]':
         'index = Ansi256Color::from_ansi(color).index() in 0..=15 (C13|colour-tables) < ANSI_NAMES.len() = 16',
 }
 
